@@ -433,9 +433,14 @@ def evaluate__sum(self: XPathFunction, context: ta.ContextType = None) -> ta.One
     xsd_version = self.parser.xsd_version
     values: list[Any]
     try:
-        values = [get_double(self.string_value(x), xsd_version)
-                  if isinstance(x, XPathNode) else x
-                  for x in self[0].select_flatten(context)]
+        if self.parser.version == '1.0':
+            # the string-value of each node is converted with number()
+            values = [self.number_value(x) if isinstance(x, XPathNode) else x
+                      for x in self[0].select_flatten(context)]
+        else:
+            values = [get_double(self.string_value(x), xsd_version)
+                      if isinstance(x, XPathNode) else x
+                      for x in self[0].select_flatten(context)]
     except (TypeError, ValueError):
         if self.parser.version == '1.0':
             return math.nan
